@@ -60,7 +60,7 @@ def expected_status(st):
     if k == "notfound":
         return 127
     if k == "builtin":
-        return 0
+        return "nonzero" if st.get("fails") else 0
     if k == "status":
         return st["exit"]
     if st.get("kill"):
@@ -193,6 +193,9 @@ def judge(case):
         if what:
             res["wiring"] = {"stage": i, "std": std, "open_fds": x.get("open_fds")}
             return ("violated", "C02:wiring:%s:%s" % (what, feat), res)
+    for i, st in enumerate(stages):
+        if st["kind"] == "builtin" and st.get("fails") and b"cicada" not in r.err:
+            return ("violated", "C02:failing-builtin-stage-left-no-diagnostic-on-stderr:%s" % feat, res)
     # every vp_st stage that was not killed before logging must have ended
     for i, st in enumerate(stages):
         if st["kind"] in ("src", "flt", "snk", "noread") and len(ends.get(i, [])) != 1:
@@ -213,9 +216,10 @@ def judge(case):
                 return ("violated", "C02:link-conservation:%s:writer=%s:reader=%s" % (feat, w["kind"], rd["kind"]), res)
             if w["kind"] == "src" and not case["lossy"] and e_w["nout"] != w["n"]:
                 return ("violated", "C02:source-truncated:%s" % feat, res)
-        elif w["kind"] in ("status", "notfound"):
+        elif w["kind"] in ("status", "notfound") or (w["kind"] == "builtin" and w.get("silent")):
+            # (a builtin that prints nothing on its stdout - its diagnostics go to stderr - feeds nothing to the next stage)
             if e_r["nin"] != 0:
-                return ("violated", "C02:bytes-from-nowhere:%s" % feat, res)
+                return ("violated", "C02:bytes-from-nowhere:%s%s" % (feat, ":writer=failing-builtin" if w.get("fails") else ""), res)
         if e_r["rerr"]:
             return ("violated", "C02:read-error:%s" % feat, res)
     if not case["lossy"]:
@@ -239,7 +243,7 @@ def judge(case):
         want = expected_status(stages[-1])
         got = snap["argv"][1] if len(snap["argv"]) > 1 else None
         res["status_expected"], res["status_observed"] = want, got
-        if got != str(want):
+        if (got in ("0", None)) if want == "nonzero" else (got != str(want)):
             return ("violated", "C02:status:%s:last=%s%s" % (
                 feat, stages[-1]["kind"], ":signal" if stages[-1].get("kill") else ""), res)
         # shell's own fds back to 0,1,2
@@ -250,7 +254,7 @@ def judge(case):
     else:
         want = expected_status(stages[-1])
         res["status_expected"], res["status_observed"] = want, r.rc
-        if r.rc != want:
+        if (r.rc == 0) if want == "nonzero" else (r.rc != want):
             return ("violated", "C02:exit-status-of-dash-c:%s:last=%s%s" % (
                 feat, stages[-1]["kind"], ":signal" if stages[-1].get("kill") else ""), res)
     return ("held", None, res)
@@ -320,7 +324,11 @@ def gen_cases(tier, seed):
                 lambda: {"kind": "noread", "exit": rng.choice([1, 3, 200])},
                 lambda: {"kind": "status", "exit": rng.choice([0, 1, 9])},
                 lambda: {"kind": "notfound"},
-                lambda: {"kind": "builtin", "text": rng.choice(["minfd", "alias", "jobs"])}]
+                lambda: {"kind": "builtin", "text": rng.choice(["minfd", "alias", "jobs"])},
+                # builtins that print nothing on stdout: a failing one reports on stderr
+                lambda: {"kind": "builtin", "text": rng.choice(["cd /vp-no-such-dir", "unalias vp_no_such_alias", "read 1x"]),
+                         "silent": True, "fails": True},
+                lambda: {"kind": "builtin", "text": rng.choice(["cd .", "alias vpq=vp_a", "export VPQ=1"]), "silent": True}]
     reps = 8 if thorough else 2
     for n in range(1, 7):
         for pos in range(n):
